@@ -4,6 +4,7 @@ import (
 	"bufio"
 	"fmt"
 	"io"
+	"os"
 	"regexp"
 	"sort"
 	"strconv"
@@ -52,8 +53,9 @@ type c13Scn struct {
 	Pre map[string]string `json:"pre,omitempty"`
 	// Cmds: command name -> script (steps after the name)
 	Cmds map[string]string `json:"cmds,omitempty"`
-	// Tape: scheduler choices for runs with talkers (layer B); empty = release everything at once
-	Tape []int `json:"tape,omitempty"`
+	// Sched: run under the seeded scheduler (layer B); Tape are its choices
+	Sched bool  `json:"sched,omitempty"`
+	Tape  []int `json:"tape,omitempty"`
 }
 
 type c13Entry struct {
@@ -69,6 +71,7 @@ type c13State struct {
 	trace []c13Entry
 	ntok  int
 	crlf  bool
+	yield func(id int) // scheduled runs: park before the operation
 }
 
 var c13cur *c13State
@@ -98,7 +101,12 @@ func c13Letter(dest string) string {
 }
 
 var c13funcs = map[string]any{
-	"step": func(id int) { c13cur.trace = append(c13cur.trace, c13Entry{ID: id}) },
+	"step": func(id int) {
+		c13cur.trace = append(c13cur.trace, c13Entry{ID: id})
+		if c13cur.yield != nil {
+			c13cur.yield(id)
+		}
+	},
 	"tok": func(id int) string {
 		st := c13cur
 		st.ntok++
@@ -113,6 +121,9 @@ var c13funcs = map[string]any{
 			s += strings.Repeat(c13Letter(op.Dest), op.Big-len(s))
 		}
 		st.trace = append(st.trace, c13Entry{ID: id, Tok: s})
+		if st.yield != nil {
+			st.yield(id)
+		}
 		return s
 	},
 	"obs": func(id int, v float64) {
@@ -244,6 +255,40 @@ func c13GenOps(r *core.Rand, depth int, kids string, inRule bool) []c13Op {
 	return ops
 }
 
+// c13GenSchedOps draws operations for a scheduled (layer B) program.
+func c13GenSchedOps(r *core.Rand, depth int) []c13Op {
+	n := r.Range(2, 8)
+	if depth > 0 {
+		n = r.Range(1, 3)
+	}
+	var ops []c13Op
+	for i := 0; i < n; i++ {
+		var op c13Op
+		switch k := r.Intn(100); {
+		case k < 35:
+			op = c13Op{Kind: core.Pick(r, []string{"print", "printf"})}
+		case k < 45:
+			op = c13Op{Kind: "print", Dest: core.Pick(r, []string{"A", "B"}), Redir: core.Pick(r, []string{">", ">>"})}
+		case k < 70:
+			op = c13Op{Kind: core.Pick(r, []string{"print", "printf"}), Dest: core.Pick(r, []string{"T1", "T2", "T1", "K1"}), Redir: "|"}
+		case k < 82:
+			op = c13Op{Kind: "close", Name: core.Pick(r, []string{"T1", "T2", "K1", "A", "nope"})}
+		case k < 86:
+			op = c13Op{Kind: core.Pick(r, []string{"fflush", "fflushall"}), Name: core.Pick(r, []string{"T1", "A"})}
+		case k < 93:
+			op = c13Op{Kind: "system", Name: core.Pick(r, []string{"S1", "S2"})}
+		case k < 95:
+			op = c13Op{Kind: core.Pick(r, []string{"exit", "exit-n", "error-div"}), K: r.Range(0, 3)}
+		case k < 100 && depth == 0:
+			op = c13Op{Kind: core.Pick(r, []string{"loop", "call"}), K: r.Range(1, 2), Sub: c13GenSchedOps(r, depth+1)}
+		default:
+			op = c13Op{Kind: "print"}
+		}
+		ops = append(ops, op)
+	}
+	return ops
+}
+
 func (c13Engine) Gen(r *core.Rand, tier string, i int) any {
 	sc := &c13Scn{}
 	kids := "none"
@@ -300,8 +345,17 @@ func (c13Engine) Gen(r *core.Rand, tier string, i int) any {
 	case f < 9:
 		sc.DevFull = core.Pick(r, []string{"A", "B"})
 	}
-	if kids == "talkers" {
-		for n := r.Range(0, 40); n > 0; n-- {
+	if kids == "talkers" && r.Chance(3, 4) {
+		// layer B: straight-line programs under the seeded scheduler (bare sink, fault-free)
+		sc.Sched = true
+		sc.Begin = c13GenSchedOps(r, 0)
+		sc.Rule, sc.Records = nil, 0
+		sc.End = nil
+		if r.Chance(1, 3) {
+			sc.End = c13GenSchedOps(r, 1)
+		}
+		sc.Output, sc.HasFail, sc.FlushFail, sc.DevFull, sc.Enum, sc.CRLF = "bare", false, false, "", "", false
+		for n := r.Range(0, 60); n > 0; n-- {
 			sc.Tape = append(sc.Tape, r.Intn(16))
 		}
 	}
@@ -381,8 +435,15 @@ func c13Source(sc *c13Scn) (string, map[int]*c13Op) {
 	if len(sc.Rule) > 0 {
 		parts = append(parts, "{ "+g.gen(sc.Rule)+"}")
 	}
-	if len(sc.End) > 0 {
-		parts = append(parts, "END { "+g.gen(sc.End)+"}")
+	if len(sc.End) > 0 || sc.Sched {
+		g.ops[-1] = &c13Op{Kind: "end-start", K: g.n + 1} // ids >= K belong to the END block
+		end := g.gen(sc.End)
+		if sc.Sched {
+			// the scheduler must know when the program is over and closeAll begins
+			end += fmt.Sprintf("step(%d); ", c13LastOp)
+			g.ops[c13LastOp] = &c13Op{Kind: "marker"}
+		}
+		parts = append(parts, "END { "+end+"}")
 	}
 	return strings.Join(append(g.funcs, parts...), "\n"), g.ops
 }
@@ -576,6 +637,7 @@ func (m *c13Model) apply(idx int, e c13Entry, op *c13Op, complete bool) {
 		} else {
 			m.vals[idx] = -2
 		}
+	case "marker":
 	case "exit-n":
 		m.status = op.K
 	case "error-div", "error-fail":
@@ -630,6 +692,7 @@ type c13Result struct {
 	FlushErrs       int // errors returned to the interpreter by Output.Flush
 	Overlaps        int
 	ChildWriteFails int
+	SchedOverlaps   []string
 	Async           bool
 	Deadlock        string
 	Sched           int
@@ -659,10 +722,9 @@ func c13Exec(sc *c13Scn, src string, ops map[int]*c13Op, failAt int, log *core.L
 	if sc.DevFull != "" {
 		fs.Plan[sc.DevFull] = core.FaultDevFull
 	}
-	sink := core.NewSimSink("stdout", log)
-	if c13UsesTalkers(sc) {
-		sink.Log = nil // free-running children: the interleaving of writes is not part of the log
-	}
+	// The sink does not log single writes: child output arrives through os/exec copier goroutines
+	// whose chunking is the kernel's business (and, under the scheduler, is logged at release).
+	sink := core.NewSimSink("stdout", nil)
 	sink.FailAt = failAt
 	stderr := core.NewSimSink("stderr", nil)
 	var out io.Writer = sink
@@ -704,9 +766,13 @@ func c13Exec(sc *c13Scn, src string, ops map[int]*c13Op, failAt int, log *core.L
 	if sc.CRLF {
 		cfg.NewlineOutput = interp.CRLFNewlineMode
 	}
-	done := make(chan execResult, 1)
-	go func() { done <- execProgram(prog, cfg) }()
-	c13Schedule(sc, srv, sink, done, res, log)
+	if sc.Sched {
+		c13RunScheduled(sc, ops, srv, sink, func() execResult { return execProgram(prog, cfg) }, res, log)
+	} else {
+		done := make(chan execResult, 1)
+		go func() { done <- execProgram(prog, cfg) }()
+		c13Schedule(sc, srv, sink, done, res, log)
+	}
 	// Everything a child sent before it went away is already queued: drain it.
 	for drained := false; !drained; {
 		select {
@@ -745,9 +811,30 @@ func c13Exec(sc *c13Scn, src string, ops map[int]*c13Op, failAt int, log *core.L
 		res.ChildWriteFails = sink.Failed - res.WriteErrs
 	}
 	for _, e := range res.Trace {
-		log.Addf("op %d tok=%q val=%v/%v line=%q", e.ID, clip(e.Tok, 24), e.HasVal, e.Val, e.Line)
+		val := e.Val
+		if op := ops[e.ID]; op != nil && res.SinkFails > 0 && (op.Kind == "system" || op.Kind == "close") {
+			val = -99 // whether the child dies of SIGPIPE or the copy fails first is the kernel's timing
+		}
+		log.Addf("op %d tok=%q val=%v/%v line=%q", e.ID, clip(e.Tok, 24), e.HasVal, val, e.Line)
 	}
-	log.Addf("status=%d err=%q panic=%q stdout=%x files=%x got=%v", res.Res.Status, res.Res.errString(), res.Res.Panic, core.HashString(res.Stdout), core.HashString(core.SnapshotString(res.Files)), len(res.Got))
+	stdoutForLog := res.Stdout
+	if c13UsesTalkers(sc) && (!sc.Sched || res.Async) {
+		// free-running children that share stdout: only the projections are determined
+		var letters, digits []byte
+		for i := 0; i < len(stdoutForLog); i++ {
+			if c := stdoutForLog[i]; c >= '0' && c <= '9' {
+				digits = append(digits, c)
+			} else {
+				letters = append(letters, c)
+			}
+		}
+		sort.Slice(digits, func(i, j int) bool { return digits[i] < digits[j] })
+		stdoutForLog = string(letters) + "|" + string(digits)
+	}
+	if os.Getenv("VERIF_DEBUG") != "" {
+		fmt.Fprintf(os.Stderr, "STDOUT %q\nNORM %q\n", res.Stdout, stdoutForLog)
+	}
+	log.Addf("sinkfails=%d status=%d err=%q panic=%q stdout=%x files=%x got=%v", res.SinkFails, res.Res.Status, res.Res.errString(), res.Res.Panic, core.HashString(stdoutForLog), core.HashString(core.SnapshotString(res.Files)), len(res.Got))
 	return res
 }
 
@@ -1047,6 +1134,28 @@ func c13Check(sc *c13Scn, src string, ops map[int]*c13Op, failAt int, res *c13Re
 		return fail("child-alive", fmt.Sprintf("child %s was still running 5 s after the run returned", n))
 	}
 	out.Probe("destinations_compared", 1)
+	if res.Async {
+		out.Probe("scheduled_runs_fallen_back_to_free_running", 1)
+	}
+	if sc.Sched && !res.Async {
+		out.Probe("scheduled_runs", 1)
+		out.Probe("scheduler_decisions", res.Sched)
+	}
+	// rule 4 (schedule-dependent, evaluated last so that it never hides another oracle): no
+	// delivery of child output overlaps a Write of the program on the same Config.Output
+	for _, o := range res.SchedOverlaps {
+		out.Probe("overlap:program_write_vs_child_delivery", 1)
+		if strings.HasPrefix(o, "system:") {
+			return fail("concurrent-write", "a child started by system() wrote to standard output concurrently with the program: "+o)
+		}
+	}
+	if len(res.SchedOverlaps) > 0 {
+		f := fail("concurrent-write", fmt.Sprintf("two goroutines were inside Config.Output.Write at once (an ordinary writer such as bufio.Writer is corrupted by that): %s", res.SchedOverlaps[0]))
+		if core.IsOpen("F-C13-1") {
+			f.Known = "F-C13-1" // the overlapping child was started by print | cmd (cmd.Stdout = p.output)
+		}
+		return f
+	}
 	return nil
 }
 
